@@ -6,6 +6,7 @@ import (
 	"go/types"
 	"sort"
 	"strings"
+	"time"
 
 	"golang.org/x/tools/go/ssa"
 )
@@ -35,19 +36,21 @@ type Event struct {
 }
 
 type State struct {
-	Frames []*Frame
-	Heap   map[int]Value // overlay over Engine.Base
-	PC     []*Term
-	Status string // "", "done", "panic: ...", "assume-false", "unwind: ...", "infeasible", "unsupported: ..."
-	Ret    Value
-	Steps  int
-	Alloc  *Term // ghost: bytes allocated so far (bv64)
-	Unwind int
-	Forks  int // symbolic branch decisions on this path
-	Reach  []string
-	Obs    []Obs
-	Depth  int // number of merges/forks (for stats)
-	Budget *Term
+	Frames    []*Frame
+	Heap      map[int]Value // overlay over Engine.Base
+	PC        []*Term
+	Status    string // "", "done", "panic: ...", "assume-false", "unwind: ...", "infeasible", "unsupported: ..."
+	Ret       Value
+	Steps     int
+	Alloc     *Term // ghost: bytes allocated so far (bv64)
+	Unwind    int
+	TripBound int  // bound on solver-forced iterations of one loop test (0 = unchecked)
+	UnwindCut bool // exceeding the bound ends the path silently (stated as outside the claim)
+	Forks     int  // symbolic branch decisions on this path
+	Reach     []string
+	Obs       []Obs
+	Depth     int // number of merges/forks (for stats)
+	Budget    *Term
 }
 
 type Obs struct {
@@ -56,7 +59,7 @@ type Obs struct {
 }
 
 func (s *State) Clone() *State {
-	n := &State{Status: s.Status, Steps: s.Steps, Alloc: s.Alloc, Unwind: s.Unwind, Forks: s.Forks, Budget: s.Budget}
+	n := &State{Status: s.Status, Steps: s.Steps, Alloc: s.Alloc, Unwind: s.Unwind, UnwindCut: s.UnwindCut, TripBound: s.TripBound, Forks: s.Forks, Budget: s.Budget}
 	n.PC = append(make([]*Term, 0, len(s.PC)+4), s.PC...)
 	n.Reach = append([]string(nil), s.Reach...)
 	n.Obs = append([]Obs(nil), s.Obs...)
@@ -107,42 +110,45 @@ type Finding struct {
 }
 
 type Engine struct {
-	Prog     *ssa.Program
-	Solver   *Solver
-	Base     map[int]Value // heap shared by all states (globals after package init)
-	nextObj  int
-	globals  map[*ssa.Global]int
-	inited   map[*ssa.Package]bool
-	initing  bool
-	Cuts     map[string]*ssa.Function
-	Pure     map[string]bool
-	HarnessP *ssa.Package
-	Findings []Finding
-	seenFind map[string]bool
-	Incon    []string
-	seenInc  map[string]bool
-	Stats    map[string]int
-	Reached  map[string]int
-	AssertsN map[string]int
-	FuncsHit map[*ssa.Function]bool
-	Stubs    map[string]bool
-	Assumes  map[string]bool
-	Pending  []*State // states created by in-instruction forks, picked up by explore
-	Finals   []*State
-	MaxFind  int
-	MaxSteps int
-	DefUnw   int
-	MergeOn  bool
-	MergeBud int
-	Paths    int
-	Branches int
-	arrNames map[string]*Term // nondet array name -> array var (for model extraction)
-	arrLens  map[string]*Term
-	Verbose  bool
-	Witness  []map[string]interface{}
-	PanicOK  bool // harness declared that panics are not violations
-	joinMemo map[*ssa.BasicBlock]*joinInfo
-	MapPerm  bool
+	Prog        *ssa.Program
+	Solver      *Solver
+	Base        map[int]Value // heap shared by all states (globals after package init)
+	nextObj     int
+	globals     map[*ssa.Global]int
+	inited      map[*ssa.Package]bool
+	initing     bool
+	Cuts        map[string]*ssa.Function
+	Pure        map[string]bool
+	HarnessP    *ssa.Package
+	Findings    []Finding
+	seenFind    map[string]bool
+	Incon       []string
+	seenInc     map[string]bool
+	Stats       map[string]int
+	Reached     map[string]int
+	AssertsN    map[string]int
+	FuncsHit    map[*ssa.Function]bool
+	Stubs       map[string]bool
+	Assumes     map[string]bool
+	Pending     []*State // states created by in-instruction forks, picked up by explore
+	Finals      []*State
+	MaxFind     int
+	MaxSteps    int
+	DefUnw      int
+	MergeOn     bool
+	MergeBud    int
+	Paths       int
+	Branches    int
+	arrNames    map[string]*Term // nondet array name -> array var (for model extraction)
+	arrLens     map[string]*Term
+	Verbose     bool
+	Witness     []map[string]interface{}
+	PanicOK     bool // harness declared that panics are not violations
+	joinMemo    map[*ssa.BasicBlock]*joinInfo
+	MapPerm     bool
+	BranchSites map[string]int
+	Deadline    time.Time
+	lastLog     time.Time
 }
 
 func (e *Engine) newObj() int {
